@@ -391,7 +391,7 @@ pub fn check(scn: &dyn Scenario, opts: &CheckOpts) -> i32 {
 }
 
 fn hang_secs() -> u64 {
-    std::env::var("VERIF_HANG_SECS").ok().and_then(|s| s.parse().ok()).unwrap_or(30)
+    std::env::var("VERIF_HANG_SECS").ok().and_then(|s| s.parse().ok()).unwrap_or(90)
 }
 
 fn sanitize(s: &str) -> String {
